@@ -382,4 +382,6 @@ impl<'conn, C> FolderEntity<'conn, C> {
 pub fn vault_entries(vault: &Vault) -> (r: Vec<(&Uuid, &VaultCommit)>)
     ensures r@.len() == vault@.secrets.len(),
         forall|i: int| 0 <= i < r@.len() ==> (#[trigger] r@[i]).0.0@ == vault@.secrets[i].0 && (*r@[i].1)@ == vault@.secrets[i].1,
+        // a key is a `Uuid`: 16 bytes
+        forall|i: int| 0 <= i < vault@.secrets.len() ==> (#[trigger] vault@.secrets[i]).0.len() == 16,
 { unimplemented!() }
